@@ -45,6 +45,8 @@ FLOORS = {
     "thorough": {"nontrivial": 2400, "counters": {"bij.constructed_checked": 7000, "bij.points_mapped": 800000,
                                                    "iso.symmetry_checked": 18000, "iso.answer_false": 2000}},
 }
+# W5: the repository's own test suite runs once under these ambient monitors (thorough tier)
+W5_MONITORS = ['bijection']
 CASE_TIMEOUT = {"quick": 90, "thorough": 180}
 SIZES = {"quick": 450, "thorough": 9000}
 KINDS = ("relabel", "redundant", "repack", "repack", "reload", "self", "unrelated", "finder", "near", "symatom")
